@@ -339,6 +339,20 @@ impl Prop for C16 {
         let has_loop = c.arcs.iter().any(|&(u, v)| u == v);
         let a1 = guarded(|| AdjacencyMatrix::from(c.arcs.clone()));
         let a2 = guarded(|| EdgeList::from(c.arcs.clone()));
+        {
+            let f1 = guarded(|| AdjacencyMatrix::from(c.arcs.clone().into_iter().filter(|_| true)));
+            let f2 = guarded(|| EdgeList::from(c.arcs.clone().into_iter().filter(|_| true)));
+            match (&a1, f1) {
+                (Ok(x), Ok(y)) => ensure!(*x == y, "AdjacencyMatrix::from(arcs through filter) differs from the same arcs as a Vec"),
+                (Err(_), Err(_)) => {}
+                _ => return Err("AdjacencyMatrix::from(arcs through filter) accepts / rejects differently from the same arcs as a Vec".into()),
+            }
+            match (&a2, f2) {
+                (Ok(x), Ok(y)) => ensure!(*x == y, "EdgeList::from(arcs through filter) differs from the same arcs as a Vec"),
+                (Err(_), Err(_)) => {}
+                _ => return Err("EdgeList::from(arcs through filter) accepts / rejects differently from the same arcs as a Vec".into()),
+            }
+        }
         if has_loop {
             ensure!(a1.is_err(), "AdjacencyMatrix::from accepted arcs with a self-loop: {:?}", c.arcs);
             ensure!(a2.is_err(), "EdgeList::from accepted arcs with a self-loop: {:?}", c.arcs);
